@@ -641,7 +641,7 @@ def e18(ctx: Ctx):
     ctx.need(n >= 1, "implicit-goto", "the grammar builds no implicit jump at all (anchor lost)")
 
 
-@rule("A4", "POP-GUARDED: every pop() from a stack a pass keeps is guarded by an emptiness test of that stack that is evaluated for that very pop (no loop between guard and pop)", ["C15", "C02"], floor=2)
+@rule("A4", "POP-GUARDED: every pop() from a stack a pass keeps is guarded by an emptiness test of that stack that is evaluated for that very pop (no loop between guard and pop)", ["C15", "C02"], floor=1)
 def a4(ctx: Ctx):
     py = pyfacts(ctx)
     for rel, m in sorted(py.modules.items()):
